@@ -47,9 +47,12 @@ def batch(tier):
         "caltrack-6": meter("caltrack", "caltrack", 6, n=120),
         "daily-current-7": meter("daily", "current", 7),
         "hourly-adaptive-8": meter("hourly", "hourly_adaptive", 8, ghi=False),
+        # settings that share cached/global state with their neighbours: another initial step for the same optimiser, seed 0
+        "daily-step-9": meter("daily", "legacy_dev_step", 9),
+        "hourly-seed0-10": meter("hourly", "hourly_seed0", 10, ghi=False),
     }
     if tier == "thorough":
-        for i in range(9, 17):
+        for i in range(11, 17):
             ms["daily-legacy-%d" % i] = meter("daily", ["legacy", "legacy_dev_smooth", "legacy_dev_aic"][i % 3], i)
         for i in range(17, 23):
             ms["hourly-%d" % i] = meter("hourly", ["hourly_default", "hourly_robust", "hourly_clusters"][i % 3], i, ghi=False)
